@@ -57,6 +57,8 @@ Definition robs_eqb (m i : robs) : bool :=
   && match ro_out m, ro_out i with
      | IOk p, IOk p' => resp_eqb p p'
      | ICancelled, ICancelled => true
+     | IErr, IErr => true     (* model: the request was never given a connection (no EStart in the schedule);
+                                 implementation: the call failed and no server was ever given the request *)
      | _, _ => false
      end
   && Bool.eqb (ro_cancelled m) (ro_cancelled i).
